@@ -139,4 +139,31 @@ def getItem (cs : Bool) (key : Bytes) : List Item → Option Nat
 def getArrayItem (kids : List Item) (idx : Int) : Option Nat :=
   if idx < 0 then none else if idx.toNat < kids.length then some idx.toNat else none
 
+/-! ### attaching a member -/
+
+def Item.kids : Item → List Item
+  | .mk _ _ _ _ _ _ _ ks => ks
+
+/-- outcome of `add_item_to_object`: the object afterwards, and the item when it is NOT attached — the
+    caller still owns it then and has to `cJSON_Delete` it (every cjet caller that ignores the result leaks it:
+    known finding F60) -/
+structure AddRes where
+  ok : Bool
+  obj : Item
+  orphan : Option Item
+  a : A
+  deriving Repr, Inhabited
+
+/-- `add_item_to_object(object, key, item, hooks, constant_key)` for `object ≠ item`, both non-NULL: the key is
+    copied unless constant (the only allocation; on failure NOTHING has been changed), the item's previous
+    name is released unless that was constant, the item goes to the end of the chain -/
+def addToObject (s : Nat → Bool) (constKey : Bool) (key : Bytes) : Item → Item → A → AddRes
+  | .mk ok orf oc ovi ovd ovs onm okids, .mk k r c vi vd vs nm kids, a =>
+    match optAlloc s (!constKey) a with
+    | (false, a1) => ⟨false, .mk ok orf oc ovi ovd ovs onm okids, some (.mk k r c vi vd vs nm kids), a1⟩
+    | (true, a1) =>
+      let freed := b2n (!c && nm.isSome)
+      ⟨true, .mk ok orf oc ovi ovd ovs onm (okids ++ [.mk k r constKey vi vd vs (some key) kids]), none,
+       ⟨a1.next, a1.live - freed⟩⟩
+
 end Cjet.Cjson.TreeOps
